@@ -208,7 +208,9 @@ func (ap *accountsParser) checkForDuplicates() error {
 		ia1 := ap.initialAccounts[idx1]
 		for idx2 := idx1 + 1; idx2 < len(ap.initialAccounts); idx2++ {
 			ia2 := ap.initialAccounts[idx2]
-			if ia1.Address == ia2.Address {
+			// compare the decoded bytes as well: the same address has more than one textual form (e.g. upper case bech32)
+			isSameAddress := ia1.Address == ia2.Address || bytes.Equal(ia1.AddressBytes(), ia2.AddressBytes())
+			if isSameAddress {
 				return fmt.Errorf("%w found for '%s'",
 					genesis.ErrDuplicateAddress,
 					ia1.Address,
